@@ -2,6 +2,7 @@ import LyModel.Merge.LemmasKeep2
 import LyModel.Merge.LemmasDestruct
 import LyModel.Merge.LemmasDupSibs
 import LyModel.Merge.LemmasCanon
+import LyModel.Merge.LemmasParents
 /-!
 # C14 — merging and duplicating trees preserve content (property theorems)
 
@@ -265,6 +266,29 @@ example :
       (dupNode exS { recursive := true, withFlags := true } n).beq n = true ∧
       (dupNode exS { recursive := true, noMeta := true } n).metas = [] ∧
       beqL (dupNode exS {} n).kids [.term 4 { new := true } [] [97]] = true := by
+  decide
+
+/-- **dup_equal (with parents)**: `LYD_DUP_WITH_PARENTS` duplicates a nested node `n` below a copy of the chain of its
+ancestors `anc` (nearest first) — one root; every duplicated parent has the parent's schema node, its metadata unless
+`LYD_DUP_NO_META`, the duplicates of its list keys and *exactly one* more child: the next node of the path
+(`PathOnly`); at the end of the path hangs `dupNode S o n`, the duplicate the other theorems describe.  `ChainOK`: going
+down the chain the schema ids grow past every ancestor's keys — `chainOK_link` gives each link in a well-shaped tree. -/
+theorem dup_with_parents (S : Schema) (o : DupOpts) (anc : List DNode) (n : DNode) (hw : o.withParents = true)
+    (hne : anc ≠ []) (hk : S.isKey n.sid = false) (hc : ChainOK S anc n.sid) :
+    ∃ root, dupTop S o true anc [n] = [root] ∧ PathOnly S o anc.reverse (dupNode S o n) root :=
+  dupTop_with_parents S o anc n hw hne hk hc
+
+/-- non-vacuity: `c/l[k=a]/v` duplicated with its parents `l[k=a]` and `c` -/
+example :
+    let v := DNode.term 5 {} [] [120]
+    let l := DNode.inner 3 {} [] [.term 4 {} [] [97], v]
+    let c := DNode.inner 0 {} [] [.term 1 { dflt := true } [] [100], l]
+    ChainOK exS [l, c] v.sid ∧
+      beqL (dupTop exS { withParents := true } true [l, c] [v])
+        [.inner 0 { new := true } [] [.inner 3 { new := true } [] [.term 4 { new := true } [] [97],
+          .term 5 { new := true } [] [120]]]] = true := by
+  refine ⟨?_, by decide⟩
+  simp only [ChainOK]
   decide
 
 /-- **dup_siblings_equal**: `lyd_dup_siblings` of a sibling list in canonical order is the list of the duplicates of its
